@@ -173,6 +173,31 @@ def _delete_orphan(it):
 scenario("delete_object: orphan pid reference", F + "delete_object",
          ("C07", "C10", "C13"))(_delete_orphan)
 
+
+def _delete_no_object(it):
+    """pid reference and cid list are there, the data object is not (tag_object on a cid whose
+    object was never stored, or a deletion interrupted after the object went)."""
+    w = World(it)
+    ctx = it.ctx
+    pid = sym_str("pid")
+    p = pid.term
+    ctx.assume(T.wsfree(p))
+    w.add_pid(p)
+    ctx.assume(T.present(P_of(w.fs0, w.self, p)))
+    c = T.as_text(P_of(w.fs0, w.self, p))
+    w.add_cid(c)
+    ctx.assume(T.is_Absent(O_of(w.fs0, c)))
+    ctx.assume(T.present(C_of(w.fs0, c)))
+    m = T.as_lines(C_of(w.fs0, c))
+    ctx.assume(z3.Select(m, p) >= 1)
+    sc = Sc(w, [w.self, pid], pid=p, cid=c)
+    sc.spec = objects.delete_object
+    return sc
+
+
+scenario("delete_object: references without the data object", F + "delete_object",
+         ("C08",))(_delete_no_object)
+
 for _st in ("sole reference", "shared object"):
     scenario("delete_object: " + _st, F + "delete_object", ("C09", "C10", "C13", "C08"))(_delete(_st))
 
@@ -358,9 +383,13 @@ def run_steps(eng, lib, name):
         ctx.scenario_tag = tag
         # I4 for every object at entry (typing_now must hold initially as well)
         ctx.assume_forall_loc(typing_now(sc, w.fs0))
-        state = {"n": 0}
+        state = {"n": 0, "removed": []}
 
         def monitor(c, ev):
+            if ev["kind"] == "remove" and fn == F + "store_metadata" and not c.spec_mode:
+                # recorded on replayed prefixes too: `state` is per path execution
+                state["removed"].append(z3.And(T.l_kind(ev["loc"]) == T.K_META,
+                                               T.l_marks(ev["loc"]) == 0))
             if c.replaying() or c.spec_mode:
                 return
             kind = ev["kind"]
@@ -391,6 +420,18 @@ def run_steps(eng, lib, name):
                     c.oblige(f"{tag}/S3-pid-reference-holds-one-complete-cid",
                              z3.Implies(z3.And(k == T.K_PIDREF, T.l_marks(dst) == 0),
                                         content == T.Data(sc.cid)), props=("C09",))
+            if kind == "move" and fn == F + "store_metadata":
+                # C12: retrieve_metadata takes no lock, so a reader concurrent with an overwrite
+                # gets a version only because the document is *replaced* by the one rename and is
+                # never absent in between (store(v2) || retrieve has no sequential order that
+                # yields not-found when v1 was there).  Stated at the move into place, so the
+                # obligation exists on every completing path: no earlier primitive of this call
+                # removed an unmarked metadata document.
+                dst = ev["dst"]
+                c.oblige(f"{tag}/R1-overwritten-document-is-replaced-never-removed",
+                         z3.Implies(z3.And(T.l_kind(dst) == T.K_META, T.l_marks(dst) == 0),
+                                    z3.Not(z3.Or([z3.BoolVal(False)] + state["removed"]))),
+                         props=("C12",))
             if kind in ("move", "remove", "write", "truncate", "open-w", "open-a", "mktemp"):
                 state["n"] += 1
                 target = ev.get("dst", ev.get("loc"))
